@@ -1,7 +1,12 @@
 import Hpl.Wire.Sexp
+import Hpl.Wire.Codec
 import Hpl.Model.DataType
+import Hpl.Model.Build
+import Hpl.Model.Query
+import Hpl.Model.Printer
 /-! Line-protocol driver: one S-expression request per line on stdin, one canonical answer per line on stdout. -/
 open Hpl
+open Hpl.Codec
 
 def okS (xs : List Sexp) : Sexp := .list (.atom "ok" :: xs)
 def errS (cls : String) (detail : String := "") : Sexp := .list [.atom "err", .atom cls, .str detail]
@@ -23,6 +28,37 @@ def handle (req : Sexp) : Sexp :=
     match ts.mapM Sexp.natOf with
     | some ts => okS [Sexp.ofNat (DataType.union ts)]
     | none => errS "protocol" "union"
+  | .list [.atom "build", r] =>
+    match decRaw r with
+    | some r => encM (fun e => [encExpr e]) (build r)
+    | none => errS "protocol" "build"
+  | .list [.atom "mkpred", r] =>
+    match decRaw r with
+    | some r => encM (fun p => [encPred p]) (build r >>= predFromExpr)
+    | none => errS "protocol" "mkpred"
+  | .list [.atom "print", e] =>
+    match decExpr e with
+    | some e => okS [.str e.print]
+    | none => errS "protocol" "print"
+  | .list (.atom "query" :: e :: names) =>
+    match decExpr e, names.mapM Sexp.strOf with
+    | some e, some names =>
+      let refs := match e.externalRefs with
+        | .ok rs => Sexp.list (.atom "refs" :: rs.map Sexp.str)
+        | .error _ => Sexp.list [.atom "keyerror"]
+      okS [refs, Sexp.ofBool e.containsSelf,
+           .list (names.map (fun n => Sexp.ofBool (e.containsRef n))),
+           .list (names.map (fun n => Sexp.ofBool (e.containsDef n))),
+           .list (e.iterate.map encExpr)]
+    | _, _ => errS "protocol" "query"
+  | .list [.atom "mkprop", r] =>
+    match decRawProperty r with
+    | some r => encM (fun p => [encProperty p]) (buildProperty r)
+    | none => errS "protocol" "mkprop"
+  | .list (.atom "mkspec" :: rs) =>
+    match rs.mapM decRawProperty with
+    | some rs => encM (fun ps => ps.map encProperty) (buildSpec rs)
+    | none => errS "protocol" "mkspec"
   | .list [.atom "ping"] => okS [.atom "pong"]
   | _ => errS "protocol" "unknown request"
 
